@@ -17,7 +17,7 @@ import os
 from framework import REPO, ROOT
 
 TIE = ["Nsq.Tie.DiskQueue", "Nsq.Tie.DiskQueueArgs"]
-PROPS = ["Nsq.Props.E9DiskQueue"]
+PROPS = ["Nsq.Props.E9DiskQueue", "Nsq.Props.E9Kill"]
 TRUSTED = [
     "go-diskqueue v1.1.0 is MODELLED (lean/Nsq/Model/DiskQueue.lean: files, metadata file, read/write positions, "
     "two-phase read, roll, sync, Empty/Close/Delete, re-open, read-error path with .bad files) and tied on every run: "
